@@ -250,8 +250,8 @@ func (ic *instCtx) candidates(body, k *Term) []*Term {
 	for _, s := range ic.skolems {
 		add(s)
 	}
-	if len(out) > 80 {
-		out = out[:80]
+	if len(out) > 300 {
+		out = out[:300]
 	}
 	return out
 }
